@@ -1051,6 +1051,13 @@ class StrategyBase(Node):
         """
         Close all child positions.
         """
+        # sub-strategies close out their own children first (as close() does),
+        # so that every security of the subtree is closed exactly rather than
+        # through a weighted allocation
+        for c in self._childrenv:
+            if not c._issec:
+                c.flatten()
+
         # go right to base alloc
         if self.fixed_income:
             [c.transact(-c.position, update=False) for c in self._childrenv if c.position != 0]
